@@ -235,32 +235,36 @@ def _cli_concrete(isa, with_arch, nlines, marked):
         path = os.path.join(td, "k.s")
         with open(path, "w") as f:
             f.write(body)
-        args = ["--ignore-unknown"] + (["--arch", "zen2" if isa == "x86" else "tx2"] if with_arch else [])
+        # with_arch: 0 none, 1 a non-default model, 2 / 3 the ISA's default model named explicitly (lower / upper case)
+        default = "SPR" if isa == "x86" else "V2"
+        archs = [None, "zen2" if isa == "x86" else "tx2", default.lower(), default]
+        args = ["--ignore-unknown"] + (["--arch", archs[with_arch]] if with_arch else [])
         out = run_cli(path, args)
     ok = ("No micro-architecture was specified" in out) == (not with_arch)
     ok = ok and ("You are analyzing a large amount of instruction forms" in out) == (nlines > 100 and not marked)
-    default = "SPR" if isa == "x86" else "V2"
-    if not with_arch:
+    if not with_arch or with_arch >= 2:
         ok = ok and ("Architecture:       %s" % default) in out
-    return ok, True, {"isa": isa, "arch_given": with_arch, "lines": nlines, "marked": marked}
+    return ok, True, {"isa": isa, "arch_given": archs[with_arch], "lines": nlines, "marked": marked}
 
 
-def cli_warnings(a64: bool, with_arch: bool, size: int, marked: bool) -> bool:
+def cli_warnings(a64: bool, with_arch: int, size: int, marked: bool) -> bool:
     """
-    pre: 0 <= size < 3
+    pre: 0 <= size < 3 and 0 <= with_arch < 4
     post: _
     """
     if skip(locals()):
         return True
     n = [3, 100, 101][pick(size, 3)]
-    ok, nt, sample = native(_cli_concrete, "aarch64" if a64 else "x86", True if with_arch else False, n, True if marked else False)
+    if with_arch >= 2 and (size != 0 or marked):
+        return True          # the explicit default model: small unmarked file only
+    ok, nt, sample = native(_cli_concrete, "aarch64" if a64 else "x86", pick(with_arch, 4), n, True if marked else False)
     return verdict(ok, nontrivial=nt, sample=sample)
 
 
 CELLS = {
     "report": {"fn": report, "bound": "3-instruction kernels over 4 dependency shapes x 3 port layouts (incl. shared-number ports 0/0DV) with one dimension group varied at a time: latencies from {0,1,3,12.5}; unknown mnemonic / missing throughput only / missing latency only / not-bound flags x --ignore-unknown; a line with a separately modelled load stage (CP share differs from its latency); pressure values from {0,.5,9.99,9.995,10,99.99,100.25}; arch/length/LCD warnings and a comment-only line",
                "budget": {"quick": 170, "thorough": 900}, "shards": 16},
-    "cli_warnings": {"fn": cli_warnings, "bound": "real CLI on generated files: {x86, AArch64} x {--arch given or not} x {3, 100, 101 lines} x {marked, unmarked}", "budget": {"quick": 170, "thorough": 300}, "shards": 4},
+    "cli_warnings": {"fn": cli_warnings, "bound": "real CLI on generated files: {x86, AArch64} x {no --arch, a non-default model, the ISA default model named explicitly in lower / upper case} x {3, 100, 101 lines} x {marked, unmarked}", "budget": {"quick": 170, "thorough": 300}, "shards": 4},
 }
 
 META = {
